@@ -66,6 +66,7 @@ func run(r *core.Run) {
 			"1 and 2 node values and the grid as in the quick tier; 3 node values: full product of every width/length/float-size/definite/indefinite form of every node (strings: one chunk and the middle two chunk split); 4 node values: the shortest encoding"),
 		"truncation":    "every proper byte prefix (including the empty input) of every encoding <= 64 bytes through pkg/decode directly; additionally through from_F for the one node values and the first encoding of the two node values",
 		"drivers":       "binary formats: every intact encoding through a jq driver that is the body of from_F (_decode + raise on ._error) followed by torepr; the documented from_F itself for the one node values, the grid and the first encoding of the two node values; text formats always through from_F",
+		"element_order": "containers of n pairwise distinct integers in a non monotonic order (element i = (37 i + 11) mod 1009; object keys k000, k001, ...) for n in {2,3,9,10,11,12,19,20,21,99,100,101,110,111,255,256,257} x {array, object} x {alone, below an object key, inside an array: every container header form of the format, members in their shortest form, the enclosing nodes one form at a time; next to a second container one element longer in an array and in an object, as the middle of three elements of an array below an object key, inside an object inside an array: the shortest encoding}, filtered by what the format can express; intact decode through jq and the trailing data cases through pkg/decode",
 		"trailing_data": "one 0x00 byte, and a second copy of the value, after every encoding: direct decode (text: must fail; binary: exactly one root gap field over the extra bits and an otherwise identical tree) and, for the one node values, the grid and the first encoding of the two node values (inputs up to 4 KiB), through jq (torepr unchanged, ._gap fields, tovalue of the tree)",
 	})
 	only := os.Getenv("VERIF_ONLY")
@@ -77,11 +78,18 @@ func run(r *core.Run) {
 		if r.ShardIdx == 0 {
 			for _, sp := range specs() {
 				cs := sp.cases(r.Thorough())
-				var n, tr, small int64
+				var n, tr, small, on, oe, ob int64
 				for _, vc := range cs {
 					set := sp.encSet(vc.v, vc.m)
 					c := set.Count()
 					n += int64(c)
+					if vc.fam == "order" {
+						on++
+						oe += int64(c)
+						for i := 0; i < c; i++ {
+							ob += int64(len(set.At(i).B))
+						}
+					}
 					for i := 0; i < c; i++ {
 						e := set.At(i)
 						if len(e.B) <= 64 {
@@ -90,18 +98,24 @@ func run(r *core.Run) {
 						}
 					}
 				}
-				fmt.Fprintf(os.Stderr, "%-10s values=%d encodings=%d  <=64B=%d prefixes=%d\n", sp.name, len(cs), n, small, tr)
+				fmt.Fprintf(os.Stderr, "%-10s values=%d encodings=%d  <=64B=%d prefixes=%d  order family: values=%d encodings=%d bytes=%d\n", sp.name, len(cs), n, small, tr, on, oe, ob)
 			}
 		}
 		return
 	}
 	var idx int64
-	// phase 0: values with <= 3 nodes and the grid, phase 1 (thorough): 4 node values
-	for phase := 0; phase < 2; phase++ {
+	// phase 0: values with <= 3 nodes and the grid, phase 1 (thorough): 4 node values,
+	// phase 2: the element order family
+	for phase := 0; phase < 3; phase++ {
 		for _, sp := range specs() {
 			var cases []valCase
 			for _, vc := range sp.cases(r.Thorough()) {
-				if vc.m.canon == (phase == 1) {
+				switch {
+				case vc.fam == "order":
+					if phase == 2 {
+						cases = append(cases, vc)
+					}
+				case phase < 2 && vc.m.canon == (phase == 1):
 					cases = append(cases, vc)
 				}
 			}
@@ -112,7 +126,10 @@ func run(r *core.Run) {
 			if phase == 1 {
 				name += ":4-nodes"
 			}
-			if only != "" && only != sp.name {
+			if phase == 2 {
+				name += ":order"
+			}
+			if only != "" && only != sp.name && !(phase == 2 && only == "order") {
 				idx += int64(len(cases)) // keep the global index stable
 				continue
 			}
